@@ -97,8 +97,8 @@ CHECKS["C28"] = dict(
 
 CHECKS["C22"] = dict(
     pkg="cluster", tests=[T("TestC22", 120, 30000, shrinktime="45s", timeout_q=1800)], level="exploration",
-    technique="schedule exploration driven by rapid: 2-4 concurrent cluster calls whose every store/plugin/engine/WAL call parks at a gate; the generator picks which parked call proceeds next (optionally always overtaking one class of call), optional single fault; referential-consistency oracle on a raw etcd dump at the quiescent end",
-    rule="1-2 pods, 1-3 nodes, optional prefix deployment; calls among add-pod / remove-pod / add-node / remove-node / create / remove over a 2-pod, 3-node name universe; schedule = generated pick sequence over the parked calls (+ 45% 'hold' of one call class); oracle: every node's pod exists, nodes <=> plugin resource records, every pod-index entry and every workload points to a recorded node, ListWorkloads / ListNodeWorkloads succeed. Non-trivial = the steps of different calls interleaved >= 3 times; distinct by hash of the case",
+    technique="schedule exploration driven by rapid: 2-4 concurrent cluster calls whose every store/plugin/engine/WAL call parks at a gate; the generator picks which parked call proceeds next (optionally always overtaking one class of call), optional single fault, optionally (15%, pod/node calls only) with every worker of calcium's non-blocking task pool occupied so that each task the calls submit is refused; referential-consistency oracle on a raw etcd dump at the quiescent end",
+    rule="1-2 pods, 1-3 nodes, optional prefix deployment; calls among add-pod / remove-pod / add-node / remove-node / create / remove over a 2-pod, 3-node name universe; schedule = generated pick sequence over the parked calls (+ 45% 'hold' of one call class; 15% 'busy-pool': calls drawn from add-pod / remove-pod / add-node / remove-node only, task pool of 64 workers fully occupied while they run — class busy-pool in the histogram); oracle: every node's pod exists, nodes <=> plugin resource records, every pod-index entry and every workload points to a recorded node, ListWorkloads / ListNodeWorkloads succeed. Non-trivial = the steps of different calls interleaved >= 3 times; distinct by hash of the case",
     level_text="Interleavings are owned by the harness at the granularity of intercepted calls and sampled by rapid; inside one store call the real etcd decides. Known design-level windows are excluded by construction in search mode and replayed as known findings.",
     level_note="Trusted: rapid, the gate (goroutines blocked in distributed-lock waits are never parked), the raw etcd dump.",
     design_ref="DESIGN.md §3.2, §4 C22", assumptions=WORLD_ASSUME)
